@@ -1,0 +1,13 @@
+//go:build verif
+
+package stream
+
+// VerifPendingSwap reports whether a live-reconfigure request is currently
+// staged in the node (n.pending != nil). Read-only; used by the verification
+// harness (/verif, property C13) to know when a Reconfigure call has reached
+// its wait, so that environment schedules can be replayed deterministically.
+func (n *ProcessorNode) VerifPendingSwap() bool {
+	n.swapMu.Lock()
+	defer n.swapMu.Unlock()
+	return n.pending != nil
+}
